@@ -157,3 +157,6 @@ func (v *VerifCluster) BackupOn(i int, name, key string) ([]byte, bool) {
 	}
 	return vpDup(e.Value()), true
 }
+
+// Delivered lists the RPCs delivered so far, in order, as "<target member>:<command name>".
+func (v *VerifCluster) Delivered() []string { return v.cl.log }
